@@ -7,7 +7,7 @@ from ..core import Disc, Subcheck, exc_detail, exc_key
 
 PROPERTY_ID = 'C17'
 LEVEL = 'exploration'
-RULE = ('generated classes: 1-2 interfaces with 1-4 properties each over every basic type with a wrapper class, s, d and '
+RULE = ('In every second history the class is inspected (every attribute read through the class) before instances exist; in every fourth the object is exported over a predecessor. generated classes: 1-2 interfaces with 1-4 properties each over every basic type with a wrapper class, s, d and '
         'a few containers x 4 (readable, writeable) combinations x 3 change-notification modes, bound by DBusProperty '
         'with or without an explicit interface, the same property name on two interfaces, properties and interfaces '
         'contributed by a base class and a subclass (same and different interface). histories of up to 15 operations on '
@@ -187,6 +187,14 @@ def run_case(case):
     try:
         store = {}
         attrs = case['attrs']
+        if len(case['ops']) % 2 == 0:
+            # tooling looks at the class before any instance exists (inspect.getmembers, help(), autodoc, autospec): every
+            # attribute is read through the class, whatever that yields or raises
+            for name in dir(cls):
+                try:
+                    getattr(cls, name)
+                except Exception:
+                    pass
         if len(attrs) % 3 == 1:
             # a subclass whose constructor assigns its properties BEFORE it calls the base constructor (upstream supports
             # property access prior to object construction; cooperative multiple inheritance produces this order)
@@ -418,6 +426,8 @@ def classify(case):
     for op in case['ops']:
         if op[0] == 'assign' and len(op) > 3 and op[3]:
             labels.append('assign_wrapped_declared' if op[3] == 1 else 'assign_wrapped_other_type')
+    if len(case['ops']) % 2 == 0:
+        labels.append('class_inspected_first')
     labels.append({0: 'plain_export', 1: 'exported_through_adapter', 2: 'moved_from_another_connection',
                    3: 'exported_over_a_predecessor'}[len(case['ops']) % 4])
     return coll or inh or set_then_get, sorted(set(labels))
